@@ -146,7 +146,7 @@ Proof. intros H P E. apply (I_d2 _ (inv_reach _ H)). right. auto. Qed.
    coroutine) and answers a value or Disconnected, not Empty *)
 Theorem spsc_call_after_disconnect s : Reach true s -> rdead (R s) = true ->
   chans s = 0 /\
-  match rp (R s) with RPark | RSusp | KStore | KEmpty | KChans | KTake | RStore => False | _ => True end /\
+  match rp (R s) with RPark | RSusp | KStore | KEmpty | KChans | KTake | KRun | RStore => False | _ => True end /\
   (rp (R s) = RIdle -> match rres (R s) with REmpty => False | _ => True end).
 Proof.
   intros H D. pose proof (inv_reach _ H) as Hi. repeat split.
@@ -191,7 +191,7 @@ Proof. intro ac. destruct ac; try destruct co; vm_compute; reflexivity. Qed.
 (* the same schedule on the current code: the re-check sees channels == 0, takes the coroutine back
    and the call answers Disconnected *)
 Example f6_schedule_now_disconnects :
-  let s := run true init (sch_f6 ++ [RStep; RStep; RStep; RStep; RStep]) in
+  let s := run true init (sch_f6 ++ [RStep; RStep; RStep; RStep; RStep; RStep]) in
   Reach true s /\ rp (R s) = RIdle /\ rres (R s) = RDisc.
 Proof. split; [apply reach_run; constructor | vm_compute; auto]. Qed.
 
